@@ -3,8 +3,14 @@ module verifharness
 go 1.16
 
 require (
+	github.com/chrislusf/raft v1.0.7
 	github.com/chrislusf/seaweedfs v0.0.0
+	github.com/golang/protobuf v1.4.3
+	github.com/gorilla/mux v1.7.4
 	github.com/seaweedfs/fuse v1.1.8
+	github.com/syndtr/goleveldb v1.0.0
+	go.etcd.io/etcd v3.3.15+incompatible
+	google.golang.org/grpc v1.29.1
 )
 
 replace github.com/chrislusf/seaweedfs => /repo
